@@ -137,9 +137,19 @@ def check_domains(ctx):
         if isinstance(r.value, ast.Tuple) and len(r.value.elts) == 3:
             fwd, _, back = r.value.elts
             b = defs.get(U(back), [back])[-1] if isinstance(back, ast.Name) else back
+            # the undo map as a lambda or as a nested function with a single return: (parameter, returned call)
+            param_, body_ = None, None
+            if isinstance(b, ast.Lambda) and len(b.args.args) == 1:
+                param_, body_ = b.args.args[0].arg, b.body
+            elif isinstance(back, ast.Name):
+                nested = [n for n in cd.node.body if isinstance(n, ast.FunctionDef) and n.name == back.id]
+                if len(nested) == 1 and len(nested[0].args.args) == 1:
+                    stmts_ = [x for x in nested[0].body if not (isinstance(x, ast.Expr) and isinstance(x.value, ast.Constant))]
+                    if len(stmts_) == 1 and isinstance(stmts_[0], ast.Return):
+                        param_, body_ = nested[0].args.args[0].arg, stmts_[0].value
             ok = isinstance(fwd, ast.Call) and U(fwd.func) == 'transform_data' and len(fwd.args) == 2 and \
-                isinstance(b, ast.Lambda) and isinstance(b.body, ast.Call) and U(b.body.func) == 'reverse_data' and \
-                len(b.body.args) == 2 and U(b.body.args[1]) == U(fwd.args[1])
+                body_ is not None and isinstance(body_, ast.Call) and U(body_.func) == 'reverse_data' and \
+                len(body_.args) == 2 and U(body_.args[1]) == U(fwd.args[1]) and U(body_.args[0]) == param_
         ctx.ob('domain-restored', cd, r, ok, 'the undo map must reverse the forward map with the same supports table: '
                'transform_data(data, S) paired with lambda d: reverse_data(d, S)')
     # ---- the forward and the backward map keep the attribute set ---------------------------------------------------
